@@ -78,6 +78,19 @@ def harness(tier, seed):
                 viol.append(("decoded-packing-below-bound", {"W": int(inst.bin_width), "H": int(inst.bin_height),
                                                               "items": np.array(inst).tolist(), "packing": np.array(y).tolist()},
                              f"packing uses {int(y.n_bins)} bins, lower bound {lb}"))
+    # ---- areas beyond 2**53 (exact integer arithmetic is required): bin 10^12 x 10^4
+    for (W, H, items, fits) in ((10 ** 12, 10 ** 4, [[10 ** 12, 1, 10 ** 4], [1, 1, 1]], 2),
+                                (10 ** 12, 10 ** 4, [[10 ** 12, 1, 10 ** 4]], 1),
+                                (10 ** 4, 10 ** 12, [[1, 10 ** 12, 2 * 10 ** 4], [1, 1, 1]], 3)):
+        inst = Instance("huge", W, H, items)
+        area = sum(w * h * c for w, h, c in items)
+        geo = -(-area // (W * H))
+        evals += 1
+        info = {"W": W, "H": H, "items": items}
+        if int(inst.lower_bound_bins) < geo:
+            viol.append(("bound-below-area-bound", info, f"lower_bound_bins={inst.lower_bound_bins} < exact ceil(area/bin area)={geo}"))
+        if int(inst.lower_bound_bins) > fits:
+            viol.append(("bound-exceeds-constructed-packing", info, f"lower_bound_bins={inst.lower_bound_bins}, {fits} bins suffice"))
     seen = set()
     viol = [v for v in viol if not (v[0] in seen or seen.add(v[0]))]
     return {"name": "bp_lower_bound", "evaluations": evals, "distinct_nontrivial": len(distinct),
